@@ -30,7 +30,8 @@ class C16(Driver):
                    "TCP loopback is out of scope (delivery is not synchronous with send); AF_UNIX shares the net.c stream paths",
                    "an injected EAGAIN/short count is always followed by a synthetic epoll edge; readiness may be "
                    "delayed or reordered but is never dropped"]
-    required_probes = ["partial_write_resumed", "eagain_then_edge", "chunk_across_events", "op_waited", "datagram_received_and_attributed"]
+    required_probes = ["partial_write_resumed", "eagain_then_edge", "chunk_across_events", "op_waited", "datagram_received_and_attributed",
+                       "os_execute_calls", "socket_half_closed"]
     timeout_ms = 20000
 
     # ---------------- generation ----------------
@@ -92,6 +93,10 @@ class C16(Driver):
                     wtag = sd["w"] if nw == 1 else 100 + 10 * s + wi
                     tasks.append({"id": tid, "role": "w", "sd": s, "w": wtag, "steps": steps,
                                   "close": (wi == 0 and r.random() < 0.85) if nw == 1 else False})
+                    if kind == "unix" and tasks[-1]["close"] and r.random() < 0.4:
+                        # half-close with net/shutdown instead of closing; a later write must fail, not hang or succeed
+                        tasks[-1]["shut"] = r.choice(["w", "w", "rw"])
+                        tasks[-1]["write_after"] = r.random() < 0.6
                     tid += 1
                 if mode == "multi_w":
                     # a closer task that closes the write end after every writer is done
@@ -130,6 +135,13 @@ class C16(Driver):
                 tid += 1
             if kind == "killed":
                 tasks.append({"id": tid, "role": "k", "sd": s, "steps": []})
+                tid += 1
+        if mode == "single" and r.random() < 0.35:
+            # os/execute: spawn + wait in one call, with and without the :x flag, while the streams are busy
+            for _ in range(r.randint(1, 2)):
+                sig = r.choice([0, 0, 0, 9, 15])
+                tasks.append({"id": tid, "role": "e", "sd": -1, "steps": [], "ms": r.choice([0, 1, 4]), "child_ms": r.choice([0, 2, 7]),
+                              "code": r.choice([0, 0, 1, 3, 255]), "sig": sig, "x": r.random() < 0.5})
                 tid += 1
         flavour = "asan" if r.random() < 0.15 else "plain"
         return {"property": "C16", "knobs": knobs, "mode": mode, "sds": sds, "tasks": tasks, "flavour": flavour}
@@ -274,7 +286,11 @@ class C16(Driver):
                         A("  (try (do (def b (sim/fill %d off %d)) (ev/write h %s) (buffer/fill b 0) (+= off %d) (sim/ev :ret %d %d :ok)) ([e] (sim/ev :ret %d %d :err e)))"
                           % (t["w"], st["n"], conv, st["n"], T, k, T, k))
                 A("  (put wdone %d true)" % T)
-                if t.get("close"):
+                if t.get("close") and t.get("shut"):
+                    A("  (sim/ev :inv %d 900) (net/shutdown h :%s) (sim/ev :ret %d 900 :closed)" % (T, t["shut"], T))
+                    if t.get("write_after"):
+                        A("  (sim/ev :inv %d 901) (try (do (ev/write h \"late\") (sim/ev :ret %d 901 :ok)) ([e] (sim/ev :ret %d 901 :err e)))" % (T, T, T))
+                elif t.get("close"):
                     A("  (sim/ev :inv %d 900) (:close h) (sim/ev :ret %d 900 :closed)" % (T, T))
                 elif plan["sds"][s].get("close_after_writers"):
                     ws = [w["id"] for w in writers_of[s]]
@@ -318,6 +334,12 @@ class C16(Driver):
                     else:
                         A("  (try (let [b %s] (if b (do (sim/ev :ret %d %d :data (length b) (= (sim/match %d off b) (length b))) (+= off (length b))) (sim/ev :ret %d %d :nil))) ([e] (sim/ev :ret %d %d :err e)))"
                           % (call, T, k, W, T, k, T, k))
+            elif t["role"] == "e":
+                tail = "k%d" % t["sig"] if t["sig"] else "x%d" % t["code"]
+                A("  (ev/sleep %s)" % (t["ms"] / 1000.0))
+                A("  (sim/ev :inv %d 0)" % T)
+                A("  (try (sim/ev :ret %d 0 :exit (os/execute [\"sim-child\" \"s%d\" \"%s\"] :p%s)) ([e] (sim/ev :ret %d 0 :err e)))"
+                  % (T, t["child_ms"], tail, "x" if t["x"] else "", T))
             elif t["role"] == "k":
                 sd = plan["sds"][s]
                 signame = {9: ":kill", 15: ":term", 2: ":int"}[sd["sig"]]
@@ -590,6 +612,31 @@ class C16(Driver):
                         V("C16/child/exit-status-misreported/kind=%s" % kind, "expected %r got %r" % (expect, got))
                 elif r_[1][0] == ":err":
                     V("C16/child/proc-wait-raised/kind=%s" % kind, " ".join(r_[1]))
+        # ---- half-closed sockets: a write after net/shutdown fails, it neither succeeds nor hangs ----
+        for t in tasks.values():
+            if t["role"] == "w" and t.get("shut") and t.get("write_after") and (t["id"], 901) in inv:
+                r_ = ret.get((t["id"], 901))
+                if r_ is None:
+                    V("C16/shutdown/write-after-shutdown-never-returned", "task %d" % t["id"])
+                elif r_[1][0] != ":err":
+                    V("C16/shutdown/write-after-shutdown-succeeded", "task %d" % t["id"])
+        # ---- os/execute reports the exit status exactly; :x turns a non-zero status into an error ----
+        for t in tasks.values():
+            if t["role"] != "e" or (t["id"], 0) not in inv:
+                continue
+            expect = 128 + t["sig"] if t["sig"] else t["code"]
+            r_ = ret.get((t["id"], 0))
+            if r_ is None:
+                V("C16/child/os-execute-never-returned", "expected status %d" % expect)
+            elif r_[1][0] == ":exit":
+                if int(r_[1][1]) != expect:
+                    V("C16/child/exit-status-misreported/kind=execute", "expected %d got %s" % (expect, r_[1][1]))
+                elif t["x"] and expect != 0:
+                    V("C16/child/os-execute-x-ignored-non-zero-status", "status %d returned instead of raised" % expect)
+            else:
+                msg = " ".join(r_[1][1:])
+                if not (t["x"] and expect != 0 and msg.strip('"').endswith("exit code %d" % expect)):
+                    V("C16/child/os-execute-raised", "expected status %d (x=%s), got error %s" % (expect, t["x"], msg[:80]))
         seen, out = set(), []
         for v in vs:
             if v.sig not in seen:
@@ -619,6 +666,8 @@ class C16(Driver):
         fc = res.fault_counts
         return {"waited": self._waited(res), "mode": plan["mode"], "kinds": [s["kind"] for s in plan["sds"]],
                 "dg": sum(1 for e in res.events if e.kind == "dg"),
+                "exec": sum(1 for t in plan.get("tasks", []) if t.get("role") == "e"),
+                "shut": sum(1 for t in plan.get("tasks", []) if t.get("shut")),
                 "partial": pr.get("short_write_injected", 0) + pr.get("natural_partial_write", 0),
                 "eagain": fc.get("eagain_r", 0) + fc.get("eagain_w", 0) + pr.get("natural_eagain_w", 0),
                 "chunks": sum(1 for t in plan["tasks"] for s in t["steps"] if s["op"] == "chunk" and s["n"] > 4096)}
@@ -632,7 +681,8 @@ class C16(Driver):
                 kinds[k] = kinds.get(k, 0) + 1
         return {"probes": {"op_waited": sum(x["waited"] for x in ex), "partial_write_resumed": sum(x["partial"] for x in ex),
                            "eagain_then_edge": sum(x["eagain"] for x in ex), "chunk_across_events": sum(x["chunks"] for x in ex),
-                           "datagram_received_and_attributed": sum(x.get("dg", 0) for x in ex)},
+                           "datagram_received_and_attributed": sum(x.get("dg", 0) for x in ex),
+                           "os_execute_calls": sum(x.get("exec", 0) for x in ex), "socket_half_closed": sum(x.get("shut", 0) for x in ex)},
                 "plans_by_mode": modes, "streams_by_kind": kinds}
 
     # ---------------- shrinking ----------------
